@@ -5,9 +5,13 @@ package c06
 
 import (
 	"bytes"
+	"context"
 	"encoding/json"
 	"errors"
 	"fmt"
+	"net/http"
+	"net/http/httptest"
+	"net/netip"
 	"os"
 	"path/filepath"
 	"sort"
@@ -18,7 +22,10 @@ import (
 	"github.com/tailscale/setec/acl"
 	"github.com/tailscale/setec/audit"
 	"github.com/tailscale/setec/db"
+	"github.com/tailscale/setec/server"
 	"github.com/tailscale/setec/types/api"
+	"tailscale.com/client/tailscale/apitype"
+	"tailscale.com/tailcfg"
 
 	"verif/hx"
 	"verif/model"
@@ -222,7 +229,7 @@ func parseLine(b []byte) (*entry, error) {
 }
 
 // runOne executes one probe in a state and judges the event log.
-func runOne(dir string, file []byte, ck callerKind, o Op, failWrite, failSync int) (string, string) {
+func runOne(dir string, file []byte, ck callerKind, o Op, failWrite, failSync int, viaHTTP bool) (string, string) {
 	p := filepath.Join(dir, "db")
 	os.Remove(p)
 	os.WriteFile(p, file, 0o600)
@@ -236,7 +243,14 @@ func runOne(dir string, file []byte, ck callerKind, o Op, failWrite, failSync in
 	before := hx.DumpKey(d)
 	vos.SetHook(&fsHook{dir: dir, ev: &ev, mu: &mu})
 	caller := db.Caller{Principal: principal(ck.name), Permissions: ck.rules}
-	r := apply(d, caller, o)
+	var r res
+	if viaHTTP {
+		r = applyHTTP(d, ck, o)
+		// the recorded principal is what the handler derives from WhoIs and the source address
+		caller.Principal = audit.Principal{User: ck.name + "@example.com", Hostname: "node.example.ts.net", IP: netip.MustParseAddr("100.99.98.97")}
+	} else {
+		r = apply(d, caller, o)
+	}
 	vos.SetHook(nil)
 	after := hx.DumpKey(d)
 	allowed := ck.rules.Allow(o.action(), o.Name) // the ACL evaluator itself is C07's subject
@@ -327,6 +341,67 @@ func runOne(dir string, file []byte, ck callerKind, o Op, failWrite, failSync in
 	return "", ""
 }
 
+// applyHTTP performs o through the registered HTTP handlers with a WhoIs answer granting exactly ck.rules.
+func applyHTTP(d *db.DB, ck callerKind, o Op) res {
+	mux := http.NewServeMux()
+	var raw []tailcfg.RawMessage
+	for _, r := range ck.rules {
+		b, _ := json.Marshal(r)
+		raw = append(raw, tailcfg.RawMessage(b))
+	}
+	who := func(context.Context, string) (*apitype.WhoIsResponse, error) {
+		return &apitype.WhoIsResponse{Node: &tailcfg.Node{Name: "node.example.ts.net"}, UserProfile: &tailcfg.UserProfile{ID: 3, LoginName: ck.name + "@example.com"}, CapMap: tailcfg.PeerCapMap{server.ACLCap: raw}}, nil
+	}
+	if _, err := server.New(context.Background(), server.Config{DB: d, WhoIs: who, Mux: mux}); err != nil {
+		panic(err)
+	}
+	var path string
+	var body any
+	switch o.Kind {
+	case "put":
+		path, body = "/api/put", api.PutRequest{Name: o.Name, Value: []byte(o.Value)}
+	case "activate":
+		path, body = "/api/activate", api.ActivateRequest{Name: o.Name, Version: api.SecretVersion(o.Ver)}
+	case "delver":
+		path, body = "/api/delete-version", api.DeleteVersionRequest{Name: o.Name, Version: api.SecretVersion(o.Ver)}
+	case "delete":
+		path, body = "/api/delete", api.DeleteRequest{Name: o.Name}
+	case "get":
+		path, body = "/api/get", api.GetRequest{Name: o.Name}
+	case "getver":
+		path, body = "/api/get", api.GetRequest{Name: o.Name, Version: api.SecretVersion(o.Ver)}
+	case "getcond":
+		path, body = "/api/get", api.GetRequest{Name: o.Name, Version: api.SecretVersion(o.Ver), UpdateIfChanged: true}
+	case "info":
+		path, body = "/api/info", api.InfoRequest{Name: o.Name}
+	case "list":
+		path, body = "/api/list", api.ListRequest{}
+	}
+	bs, _ := json.Marshal(body)
+	req := httptest.NewRequest("POST", path, bytes.NewReader(bs))
+	req.RemoteAddr = "100.99.98.97:4000"
+	req.Header.Set("Content-Type", "application/json")
+	req.Header.Set("Sec-X-Tailscale-No-Browsers", "setec")
+	rec := httptest.NewRecorder()
+	mux.ServeHTTP(rec, req)
+	switch rec.Code {
+	case 200:
+		has := false
+		switch o.Kind {
+		case "get", "getver", "getcond", "info", "list":
+			has = true
+		}
+		return res{class: model.OK, hasValue: has}
+	case 403:
+		return res{class: model.Denied}
+	case 404:
+		return res{class: model.NotFound}
+	case 304:
+		return res{class: model.NotChanged}
+	}
+	return res{class: model.OtherErr, err: rec.Body.String()}
+}
+
 func evString(ev []event) string {
 	var s []string
 	for _, e := range ev {
@@ -388,7 +463,7 @@ func TestCheck(t *testing.T) {
 	}
 	sort.Strings(keys)
 	sec := rep.Add(&report.Section{Name: fmt.Sprintf("sequential-all-states-depth%d", depth), Engine: "seqx", Exhaustive: true, Extra: map[string]int64{},
-		Rule: "every database state reachable within the depth × caller {authorised, unauthorised, partially authorised} × 23 operation instances, with a recording sink; then the same with the sink failing at the record's write or at its sync; one event log orders sink writes, sink syncs, file-system effects and the return; non-trivial = probes that must produce exactly one record"})
+		Rule: "every database state reachable within the depth × caller {authorised, unauthorised, partially authorised} × 23 operation instances, at the db.DB API and through the HTTP handlers (WhoIs granting exactly the caller's rules), with a recording sink; then the same with the sink failing at the record's write or at its sync; one event log orders sink writes, sink syncs, file-system effects and the return; non-trivial = probes that must produce exactly one record"})
 	{
 		// states are partitioned over the worker processes; within a process they run one at a time
 		// (the file-system hook is process-global)
@@ -399,8 +474,15 @@ func TestCheck(t *testing.T) {
 			}
 			for _, ck := range callers {
 				for _, o := range probeOps {
+					if kind, msg := runOne(dir, sts[k], ck, o, 0, 0, true); kind != "" {
+						rep.Violate(sec.Name, fmt.Sprintf("audit-http/%s: caller=%s op=%v", kind, ck.name, o), fmt.Sprintf("state %s caller %s %v through the HTTP handler: %s", k, ck.name, o, msg), map[string]any{"state": k, "caller": ck.name, "op": o, "http": true})
+					} else {
+						sec.Nontrivial++
+					}
+					sec.Evaluations++
+					sec.Extra["http_probes"]++
 					for _, fm := range [][2]int{{0, 0}, {1, 0}, {0, 1}} {
-						kind, msg := runOne(dir, sts[k], ck, o, fm[0], fm[1])
+						kind, msg := runOne(dir, sts[k], ck, o, fm[0], fm[1], false)
 						sec.Evaluations++
 						if fm != [2]int{0, 0} {
 							sec.Extra["sink_failure_runs"]++
